@@ -171,7 +171,10 @@ def rule_r7(chk, db):
             return True
         if x.kind == "Closure" and any(l >= 2 for l, _ in sl.params):
             par = db.body(x.parent) if x.parent != cands[0].name else b
-            for px in ([par] if par is not None else []) + [b]:
+            pars = [par] if par is not None else []
+            if par is not None and par.kind == "Closure" and db.body(par.parent) is not None:
+                pars.append(db.body(par.parent))
+            for px in pars + [b]:
                 for _, _, st in px.stmts():
                     if st["rv"]["k"] == "agg" and st["rv"].get("def") == x.name and not st["dst"]["proj"]:
                         cl = st["dst"]["l"]
@@ -181,7 +184,12 @@ def rule_r7(chk, db):
                                 if any(c.get("c") == "item" and c.get("def", "").endswith("INCLUDED_QUERY") for c in s2.consts):
                                     return True
         return False
-    for x in [b] + [y for y in db.nested(cands[0]) if y is not cands[0]]:
+    extra = []
+    for hn in getattr(b, "inlined_from", []):       # closures of the stages that were inlined (`StringToSign::push_resource`)
+        hb = db.body(hn)
+        if hb is not None:
+            extra += [y for y in db.nested(db.root_of(hb)) if y.kind == "Closure"]
+    for x in [b] + [y for y in db.nested(cands[0]) if y is not cands[0]] + extra:
       for bi, t in x.calls():
         d = callee_def(t)
         if "ordered_qs::OrderedQs::" not in d or len(t["args"]) < 2:
